@@ -317,6 +317,11 @@ def a5(ctx, rid):
             for e2 in ev:
                 if e2.bb != e1.bb and e2.bb in after:
                     twice = (e1, e2)
+        fam = [prog.fns[x] for x in prog.family(prog.fns[f.id].root)]
+        tries = [c for h in fam for c in h.calls if c.bb in h.reachable() and c.name in ('try_read', 'try_write', 'try_lock', 'try_upgradable_read')]
+        if tries:
+            ctx.bad(rid, key, tries[0].where(), 'the gauge answers from `%s`: under contention (an index dump holds the list for its whole duration) it reports a remembered or partial value that does not describe the files on disk' % tries[0].name)
+            continue
         if not ev:
             ctx.bad(rid, key, f.where(), 'the gauge does not take the storage lock')
         elif twice:
